@@ -89,6 +89,11 @@ def rand_tracks(rng, skip_checks):
         if skip_checks and rng.random() < 0.3 and msgs:
             msgs.insert(rng.randrange(len(msgs)),
                         Message('note_on', note=300, velocity=-1, skip_checks=True, time=rng.choice((0, 2))))
+        if msgs and rng.random() < 0.15:
+            # the same message object at several positions (a repeated bar, track * 2)
+            msgs = msgs + [msgs[rng.randrange(len(msgs))] for _ in range(rng.randrange(1, 4))]
+            if rng.random() < 0.3:
+                msgs = msgs * 2
         tracks.append(MidiTrack(msgs) if rng.random() < 0.8 else list(msgs))
     return tracks
 
@@ -177,6 +182,23 @@ def edit(rng, tracks):
     return 'insert'
 
 
+def big_merge_case(ctx, seed, total):
+    """>= 4096 messages with many cross-track ties (a size-gated fast path would show)."""
+    rng = random.Random(seed)
+    ntr = rng.choice((2, 3, 5))
+    tracks = []
+    for ti in range(ntr):
+        tr = MidiTrack()
+        for i in range(total // ntr + ti):
+            tr.append(Message('note_on', channel=ti, note=i % 128, velocity=(i // 128) % 128,
+                              time=rng.choice((0, 0, 5, 10))))
+        tracks.append(tr)
+    # the classic tie: track 0 has events at 5 and 10, track 1 at 0 and 10
+    tracks[0][0].time, tracks[0][1].time = 5, 5
+    tracks[1][0].time, tracks[1][1].time = 0, 10
+    judge_merge(ctx, tracks, rng.random() < 0.5, {'kind': 'big-merge', 'seed': seed, 'total': total})
+
+
 def merge_case(ctx, seed):
     rng = random.Random(seed)
     skip = rng.random() < 0.5
@@ -238,11 +260,19 @@ def run(ctx):
         if j < 2:
             tr = rand_tracks(random.Random(seed), False)
             ctx.put_sample({'seed': seed, 'tracks': [[str(m)[:50] for m in t[:4]] for t in tr[:3]]})
+    sizes = (4095, 4096, 4097, 5000, 12000)
+    for si, total in enumerate(sizes):
+        if si % ctx.nshards == ctx.shard or (ctx.tier == 'thorough' and (si + 5) % ctx.nshards == ctx.shard):
+            big_merge_case(ctx, f'{ctx.seed}:{ctx.shard}:big{total}', total)
+            ctx.nontrivial(('big', total))
+            n += 1
     ctx.count('cases', n)
 
 
 def replay(ctx, case):
-    if case['kind'] == 'merge':
+    if case['kind'] == 'big-merge':
+        big_merge_case(ctx, case['seed'], case['total'])
+    elif case['kind'] == 'merge':
         merge_case(ctx, case['seed'])
     else:
         h = HAND[case['index']]
